@@ -7,11 +7,12 @@
 // zones:
 //
 //	Accept  the octets are the DER encoding of a value (value returned)
-//	Reject  the octets are not a BER/DER encoding of any value of the type
-//	Either  a region the property does not decide (BER-but-not-DER time
-//	        forms that cryptobyte documents/comments as tolerated, values
-//	        outside the range cryptobyte can represent, ISO 8601 corner
-//	        cases such as 24:00:00, second 60, year 0000)
+//	Reject  the octets are not the DER encoding of any value of the type
+//	        (this includes BER-but-not-DER forms; for time strings whose
+//	        instant is nevertheless unambiguous Time.Valid is set)
+//	Either  a region the property does not decide (OID subidentifiers that
+//	        do not fit 31 bits, ISO 8601 corner cases: 24:00:00, second 60,
+//	        year 0000)
 package der
 
 import (
@@ -340,6 +341,7 @@ type Time struct {
 	Unix      int64 // seconds since 1970-01-01T00:00:00Z of the denoted instant
 	OffsetSec int   // differential written in the string (0 for Z)
 	HasOffset bool  // a numeric differential was written
+	Valid     bool  // the string denotes exactly one instant (Unix is meaningful) even if it is not DER
 }
 
 func digits(s []byte) bool {
@@ -393,9 +395,11 @@ func parseTail(s []byte) (off int, has, local, ok bool) {
 }
 
 // CheckUTCTime classifies the contents of a UTCTime (X.680 47, X.690 11.8).
-// Accept: YYMMDDhhmmssZ. Either: the other X.680 forms (no seconds and/or a
-// numeric differential), second 60. Years: 50..99 -> 19YY, 00..49 -> 20YY (RFC 5280
-// 4.1.2.5.1, the reading cryptobyte documents).
+// Accept: YYMMDDhhmmssZ. Reject with Valid set and a class of its own: the
+// other X.680 forms ("no-seconds", "offset-instead-of-Z",
+// "no-seconds+offset-instead-of-Z"). Either: second 60, 24:00:00. Years:
+// 50..99 -> 19YY, 00..49 -> 20YY (RFC 5280 4.1.2.5.1, the reading cryptobyte
+// documents).
 func CheckUTCTime(c []byte) (Time, Zone, string) {
 	var t Time
 	if len(c) < 10 || !digits(c[:10]) {
@@ -410,7 +414,7 @@ func CheckUTCTime(c []byte) (Time, Zone, string) {
 		rest = rest[2:]
 	}
 	off, hasOff, local, ok := parseTail(rest)
-	if !ok || local {
+	if !ok || local || (hasOff && len(rest) != 5) {
 		return t, Reject, "utctime-syntax"
 	}
 	yy, mo, d, h, mi := num(c[0:2]), num(c[2:4]), num(c[4:6]), num(c[6:8]), num(c[8:10])
@@ -429,21 +433,25 @@ func CheckUTCTime(c []byte) (Time, Zone, string) {
 	switch {
 	case h == 24 || sec == 60:
 		return t, Either, "utctime-iso8601-corner"
+	}
+	t.Valid = true
+	switch {
 	case !hasSec && hasOff:
-		return t, Either, "utctime-no-seconds+differential"
+		return t, Reject, "no-seconds+offset-instead-of-Z"
 	case !hasSec:
-		return t, Either, "utctime-no-seconds"
+		return t, Reject, "no-seconds"
 	case hasOff:
-		return t, Either, "utctime-differential"
+		return t, Reject, "offset-instead-of-Z"
 	}
 	return t, Accept, ""
 }
 
 // CheckGeneralizedTime classifies the contents of a GeneralizedTime (X.680
-// 46, X.690 11.7). Accept: YYYYMMDDhhmmssZ (no fraction). Either: DER forms
-// with a fraction (cryptobyte's documented format has none), the other X.680
-// forms (reduced precision, local time, numeric differential), year 0000,
-// 24:00:00, second 60.
+// 46, X.690 11.7). Accept: YYYYMMDDhhmmss[.f*d]Z where the fraction, if any,
+// uses '.', is non-empty and does not end in 0 (11.7.2-11.7.4); the reason is
+// "fractional-seconds" for the forms with a fraction (Unix is the whole
+// second). Reject: the other X.680 forms, each with its own class
+// ("offset-instead-of-Z" has Valid set). Either: year 0000, 24:00:00, second 60.
 func CheckGeneralizedTime(c []byte) (Time, Zone, string) {
 	var t Time
 	if len(c) < 10 || !digits(c[:10]) {
@@ -462,7 +470,7 @@ func CheckGeneralizedTime(c []byte) (Time, Zone, string) {
 			rest = rest[2:]
 		}
 	}
-	hasFrac := false
+	hasFrac, derFrac := false, false
 	if len(rest) > 0 && (rest[0] == '.' || rest[0] == ',') {
 		j := 1
 		for j < len(rest) && rest[j] >= '0' && rest[j] <= '9' {
@@ -472,6 +480,7 @@ func CheckGeneralizedTime(c []byte) (Time, Zone, string) {
 			return t, Reject, "generalizedtime-syntax"
 		}
 		hasFrac = true
+		derFrac = rest[0] == '.' && rest[j-1] != '0'
 		rest = rest[j:]
 	}
 	off, hasOff, local, ok := parseTail(rest)
@@ -490,14 +499,19 @@ func CheckGeneralizedTime(c []byte) (Time, Zone, string) {
 	switch {
 	case y == 0 || h == 24 || sec == 60:
 		return t, Either, "generalizedtime-iso8601-corner"
-	case hasFrac:
-		return t, Either, "generalizedtime-fraction"
 	case !hasMin || !hasSec:
-		return t, Either, "generalizedtime-reduced-precision"
+		return t, Reject, "generalizedtime-reduced-precision"
+	case hasFrac && (!derFrac || local || hasOff):
+		return t, Reject, "generalizedtime-fraction-not-der"
 	case local:
-		return t, Either, "generalizedtime-local"
+		return t, Reject, "generalizedtime-local"
 	case hasOff:
-		return t, Either, "generalizedtime-differential"
+		t.Valid = true
+		return t, Reject, "offset-instead-of-Z"
+	case hasFrac:
+		t.Valid = true
+		return t, Accept, "fractional-seconds"
 	}
+	t.Valid = true
 	return t, Accept, ""
 }
